@@ -125,6 +125,10 @@ func MustNotBlock(f func()) {
 // Preemptive switches exploration of pre-emptions at channel/mutex operations on or off (symbolic build only).
 func Preemptive(on bool) {}
 
+// Interleave (symbolic build): run w and, after every store w performs to pre-existing objects, also explore r running
+// at that moment. Natively the harness provides its own stress loop; this just runs w then r.
+func Interleave(w, r func()) { w(); r() }
+
 func Len(name string, opts ...int) int {
 	load()
 	if vs, ok := assignment[name]; ok {
